@@ -54,7 +54,7 @@ func genClientHeaders(rng *vh.Rng) []string {
 	}
 	if rng.Chance(10) {
 		// several Connection lines, the identity header named in a later one (the first must not be "close": the parser drops Connection then)
-		lines = append(lines, "Connection: keep-alive", "Connection: "+rng.Pick([]string{"X-Inverting-Proxy-User-ID", "x-other , X-INVERTING-PROXY-USER-ID"}))
+		lines = append(lines, "Connection: "+rng.Pick([]string{"keep-alive", "", " ", "x-other"}), "Connection: "+rng.Pick([]string{"X-Inverting-Proxy-User-ID", "x-other , X-INVERTING-PROXY-USER-ID"}))
 		return lines // keep their order
 	}
 	// shuffle
